@@ -7,7 +7,7 @@ WT="$1"; SD="$2"
 LOG="$SD/confirm.log"; : > "$LOG"
 cd "$WT" || exit 2
 git checkout -q -- . ; git clean -fdq -e target
-export CARGO_NET_OFFLINE=true
+export CARGO_NET_OFFLINE=true CARGO_PROFILE_DEV_DEBUG=0 CARGO_PROFILE_TEST_DEBUG=0 CARGO_INCREMENTAL=0
 res() { echo "$1" >> "$LOG"; }
 git apply "$SD/patch.diff" || { echo '{"ok":false,"why":"patch does not apply"}' > "$SD/confirm.json"; exit 1; }
 res "== suite with patch"
